@@ -995,7 +995,14 @@ pub(crate) fn eval_query(ctx: &Context, expr: &Query) -> Result<QueryReply, Quer
                     )))
                 }
             };
-            let top = top.with_timezone(&FixedOffset::east_opt(off as i32).unwrap());
+            // parse_offset yields at most 99:99, which fits an i32
+            let offset = FixedOffset::east_opt(off as i32).ok_or_else(|| {
+                QueryError::generic(format!(
+                    "Timezone offset {:+} seconds is out of range, must be less than 24 hours",
+                    off
+                ))
+            })?;
+            let top = top.with_timezone(&offset);
             Ok(QueryReply::Date(DateReply::new(ctx, top)))
         }
         Query::Convert(ref top, Conversion::Timezone(tz), None, Digits::Default) => {
